@@ -140,3 +140,44 @@ Proof.
   destruct (action_queue (k_layout k)); [|discriminate].
   repeat split; try reflexivity; apply N.eqb_eq; assumption.
 Qed.
+
+(* the conjuncts of is_idle that belong to kanata itself: no sequence mode, no one-shot key, no scroll / mouse movement, no replay,
+   no caps-word, no pending virtual-key deadline, every key kanata holds at the OS is still produced by the layout (nothing to
+   release in the next tick), no macro custom action between its press and its release, chords v2 idle *)
+Theorem is_idle_kanata_conjuncts k :
+  k_is_idle k = true ->
+  sq_active (k_seq k) = false /\ os_keys (oneshot (k_layout k)) = [] /\
+  k_scroll k = None /\ k_hscroll k = None /\ k_mmv k = None /\ k_mmh k = None /\
+  k_macro_cancel_dur k = 0 /\ k_replay k = None /\ k_caps_word k = None /\ k_vkeys_pending k = [] /\
+  (forall pk, In pk (k_prev_keys k) -> mem_n pk (keycodes (k_layout k)) = true) /\
+  (forall s, In s (states (k_layout k)) -> match s with SeqCustomPending _ | SeqCustomActive _ => False | _ => True end) /\
+  (forall ch, chords2 (k_layout k) = Some ch -> chv2_is_idle ch = true).
+Proof.
+  unfold k_is_idle. intros H.
+  repeat match type of H with _ && _ = true => apply andb_prop in H; let H2 := fresh "C" in destruct H as [H H2] end.
+  destruct (os_keys (oneshot (k_layout k))); [|discriminate].
+  destruct (k_scroll k); [discriminate|]. destruct (k_hscroll k); [discriminate|].
+  destruct (k_mmv k); [discriminate|]. destruct (k_mmh k); [discriminate|].
+  destruct (k_replay k); [discriminate|]. destruct (k_caps_word k); [discriminate|].
+  destruct (k_vkeys_pending k); [|discriminate].
+  repeat match goal with |- _ /\ _ => split end; try reflexivity.
+  - match goal with X : negb (sq_active _) = true |- _ => apply negb_true_iff in X; exact X end.
+  - apply N.eqb_eq. assumption.
+  - intros pk Hin. match goal with X : forallb _ (k_prev_keys k) = true |- _ => exact (proj1 (forallb_forall _ _) X pk Hin) end.
+  - intros s Hin.
+    match goal with X : negb (existsb _ (states (k_layout k))) = true |- _ => apply negb_true_iff in X; rename X into Hex end.
+    destruct s; try exact I.
+    + assert (existsb (fun s => match s with
+                             | SeqCustomPending _ | SeqCustomActive _ => true
+                             | NormalKey _ _ _ => negb (match k_waiting_for_idle k with [] => true | _ => false end) || k_live_reload_requested k
+                             | _ => false end) (states (k_layout k)) = true) as X
+        by (apply existsb_exists; eexists; split; [exact Hin|reflexivity]).
+      congruence.
+    + assert (existsb (fun s => match s with
+                             | SeqCustomPending _ | SeqCustomActive _ => true
+                             | NormalKey _ _ _ => negb (match k_waiting_for_idle k with [] => true | _ => false end) || k_live_reload_requested k
+                             | _ => false end) (states (k_layout k)) = true) as X
+        by (apply existsb_exists; eexists; split; [exact Hin|reflexivity]).
+      congruence.
+  - intros ch Hch. match goal with X : context [chords2 (k_layout k)] |- _ => rewrite Hch in X; exact X end.
+Qed.
